@@ -285,6 +285,12 @@ theorem post_shift (A rest' : List UInt8) (n : Nat) (out : List UInt8) (r : List
 
 def cst (s : Int) : Nat := if s = 0 then 2 else 3
 
+theorem cst_0 : cst 0 = 2 := rfl
+theorem cst_1 : cst 1 = 3 := rfl
+theorem cst_2 : cst 2 = 3 := rfl
+theorem cst_m1 : cst (-1) = 3 := rfl
+theorem cst_le (s : Int) : cst s ≤ 3 := by unfold cst; split <;> omega
+
 theorem frame_cons_length (s : Seg) (ss : List Seg) :
     (frame (s :: ss)).length = 6 + s.data.length + (frame ss).length := by
   simp [frame, le32bytes]; omega
@@ -322,7 +328,7 @@ theorem loop_spec : ∀ (fuel : Nat) (st : St) (n : Nat) (out rest : List UInt8)
       rw [step_tail _ _ _ _ _ _ _ hn']
       have : t :: (hexLower d ++ specOut segs) = [t] ++ (hexLower d ++ specOut segs) := rfl
       rw [this]
-      apply post_shift _ _ _ _ _ (by simpa using hn')
+      apply post_shift _ _ _ _ _ (by simp only [List.length_cons, List.length_nil]; omega)
       apply ih
       · refine ⟨d, segs, tl, hwf, htl, rfl, rfl, ?_⟩
         by_cases hz : d.length = 0
@@ -330,7 +336,8 @@ theorem loop_spec : ∀ (fuel : Nat) (st : St) (n : Nat) (out rest : List UInt8)
           subst this
           left; simp [hexLower]
         · right; right; left; simp [hz]
-      · simp only [cst, List.length_cons, List.length_nil] at hf ⊢
-        split <;> omega
+      · simp only [cst_m1, List.length_cons, List.length_nil] at hf ⊢
+        have := cst_le (if d.length = 0 then 0 else 2)
+        omega
 
 end PsVerif.Proofs.PFBRefine
